@@ -2,6 +2,8 @@
 
 package gbn
 
+import "time"
+
 // vQueue builds a real queue (real constructor) for a symbolic window size
 // n in [1,254] and overwrites base/top with arbitrary in-range values.
 func vQueue() (*queue, uint8) {
@@ -121,4 +123,57 @@ func VH_C09_Config() {
 	vAssert(g.sendQueue.cfg.s == m+1, "setN: queue s is not n+1")
 	vAssert(len(g.sendQueue.content) == int(m)+1, "setN: content array is not s slots")
 	vAssert(cap(g.recvDataChan) == int(m), "setN: receive buffer is not n slots")
+}
+
+// VH_C09_Block: the peer's acknowledgements are withheld. Exactly N Sends
+// return without waiting for the peer, the N+1st blocks; when one
+// acknowledgement-bearing batch is released it returns. At every packet put on
+// the wire the window bookkeeping holds at most N outstanding packets.
+func VH_C09_Block() {
+	n := uint8([4]int{1, 2, 3, 20}[vIntRange("n_idx", 0, vParam("maxn_idx", 3))])
+	p := vConnect(n, 0, WithStaticResendTimeout(time.Second))
+	vAssert(p.cliErr == nil && p.srvErr == nil, "clean handshake failed")
+	if p.cliErr != nil || p.srvErr != nil {
+		return
+	}
+	q := p.cli.sendQueue
+	p.c2s.monitor = func(b []byte) {
+		vAssert(q.size() <= n, "more than N packets outstanding when a packet is put on the wire")
+		vAssert(q.sequenceBase < q.cfg.s && q.sequenceTop < q.cfg.s && q.cfg.s == n+1, "window bookkeeping left the sequence space")
+	}
+	p.s2c.hold = true // no ACK reaches the client
+	returned := 0
+	done := make(chan struct{}, 1)
+	go func() {
+		for i := 0; i < int(n)+1; i++ {
+			if p.cli.Send([]byte{byte(i)}) != nil {
+				break
+			}
+			returned++
+		}
+		done <- struct{}{}
+	}()
+	go func() {
+		for {
+			if _, err := p.srv.Recv(); err != nil {
+				return
+			}
+		}
+	}()
+	select {
+	case <-done:
+		vAssert(false, "Send number N+1 returned although no acknowledgement was received")
+	case <-time.After(500 * time.Millisecond):
+	}
+	vReach("blocked")
+	vAssert(returned == int(n), "Send did not accept exactly N messages without waiting for the peer")
+	p.s2c.release()
+	select {
+	case <-done:
+		vReach("unblocked")
+		vAssert(returned == int(n)+1, "Send number N+1 failed after the acknowledgements arrived")
+	case <-time.After(30 * time.Second):
+		vAssert(false, "Send number N+1 still blocked after the acknowledgements were released")
+	}
+	p.shutdown()
 }
